@@ -91,6 +91,21 @@ def replay_known(ctx, binp):
         elif left:
             ctx.violation("files-left-behind:replay", "deleted channel dq:c leaves %s" % left,
                           open(os.path.join(ROOT, "corpus", "C08", "known", "dq_bad_file_after_delete.sched")).read())
+    rc, kv, out = run_sched(ctx, binp, "delete_races_getchannel", timeout=90)
+    res["delete_races_getchannel"] = kv or {"error": out[-300:]}
+    sched = open(os.path.join(ROOT, "corpus", "C08", "delete_races_getchannel.sched")).read()
+    if not kv:
+        if rc == -9 or "test timed out" in out:
+            ctx.violation("daemon-hangs:delete_races_getchannel", "delete racing GetChannel/SUB of the same name did not finish", sched)
+        else:
+            ctx.broken_ties.append("replay delete_races_getchannel did not run (rc=%s)" % rc)
+    else:
+        ctx.evaluations += 1
+        ctx.count_case("sched:delete_races_getchannel", nontrivial=True)
+        if kv.get("resurrected") == "true" or kv.get("delete") != "ok":
+            ctx.violation("delete-races-getchannel-resurrects", "delete_races_getchannel: " +
+                          " ".join("%s=%s" % x for x in sorted(kv.items())),
+                          sched + "# observed: " + " ".join("%s=%s" % x for x in sorted(kv.items())) + "\n")
     rc, kv, out = run_sched(ctx, binp, "empty_races_delivery")
     res["empty_races_delivery"] = kv or {"error": out[-300:]}
     if not kv:
